@@ -97,7 +97,7 @@ def expand(cases, out):
         for c in read_ndjson(cases):
             for comp in c["comps"]:
                 w.write(json.dumps({"def": c["def"], "line": c["line"], "partial": comp["p"], "comp": 0,
-                                    "expect": {"class": "completion", "must": comp["must"], "may": comp["may"]},
+                                    "expect": {"class": "completion", "must": comp["must"], "may": comp["may"], "hint": comp.get("hint", "")},
                                     "pending": comp["pending"], "acmds": c["acmds"]}) + "\n")
                 n += 1
     return n
@@ -183,6 +183,8 @@ def sig(m):
     if g.get("class") != "completion":
         return {"rule": "not_completion_output", "got": g.get("class")}
     cands = g.get("cands", [])
+    if e.get("hint") and ("\t" + e["hint"] + "\t") not in (g.get("text") or ""):
+        return {"rule": "positional_hint_missing_after_dashdash"}
     missing = sorted(set(e.get("must", [])) - set(cands))
     extra = sorted(set(cands) - set(e.get("may", [])))
     # F14: the typed word is exactly a name/alias of sibling k; the choice keeps only the branch that
